@@ -1,6 +1,6 @@
 """C03 (sources never modified), C08 (--no-clobber), C09 (numbered backups),
 C13 (--dereference): gates, dominance and who-may-call rules."""
-from cfg import cfg_of, Prov, op_local, op_place, defuse, place_fields
+from cfg import cfg_of, Prov, op_local, op_place, defuse, place_fields, callee_orig
 from engine import Ob, mkkey, anchor_ob
 import q
 import r_order as ro
@@ -769,22 +769,57 @@ def helpers_always_apply(fx):
 
 
 def extents_forwarded(fx):
-    """C01/C11: every extent the kernel reports is appended to the map (the push dominates the latch of the loop
-    over the mapped extents): an extent that is skipped is data that is never queued."""
+    """C01/C11: every extent the kernel reports is appended to the map: either a push that dominates the latch of
+    the loop over the mapped extents, or an `extend`/`collect` of an iterator chain over them that only maps
+    (no filter/skip/take/step_by): an extent that is skipped is data that is never queued."""
+    import views
     obs = []
-    f = fx.fn("libfs::linux::map_extents")
+    MAP_ = "libfs::linux::map_extents"
+    f = views.view(fx, MAP_, depth=4)
     if f is None:
         return [anchor_ob("R-ORDER", "libfs::linux::map_extents")]
     cfg = cfg_of(f)
-    du = defuse(f)
+    cg = q.callgraph(fx)
+
+    def builds_extent(fnpath, seen=()):
+        g = fx.fns.get(fnpath)
+        if g is None or fnpath in seen:
+            return False
+        for b in g.blocks:
+            for s_ in b["stmts"]:
+                if s_["rv"]["k"] == "agg" and s_["rv"].get("adt") == "libfs::Extent":
+                    return True
+        return any(builds_extent(d, tuple(seen) + (fnpath,)) for (_b, d, loc, via) in cg.out.get(fnpath, []) if loc)
     pushes = []
     for bi, t in q.calls_to(f, "alloc::vec::Vec::<T, A>::push"):
         l = op_local(t["args"][1])
         atoms, _f, _s = Prov(f, through_agg=False).origins(l)
-        if any(a.kind == "agg" and a.what == "libfs::Extent" for a in atoms):
+        if any(a.kind == "agg" and a.what == "libfs::Extent" for a in atoms) or \
+                any(a.kind == "call" and builds_extent(a.what) for a in atoms):
             pushes.append((bi, t))
-    if not pushes:
-        return [anchor_ob("R-ORDER", "map_extents pushes libfs::Extent values")]
+    bulk = []
+    LOSSY_ADAPTORS = ("filter", "filter_map", "skip", "skip_while", "take", "take_while", "step_by", "map_while", "scan",
+                      "flat_map", "flatten", "fuse", "peekable", "zip", "chain", "rev", "cycle", "dedup")
+    for bi, t in f.calls():
+        o = callee_orig(t)
+        if o not in ("core::iter::traits::collect::Extend::extend", "core::iter::traits::iterator::Iterator::collect"):
+            continue
+        ai = 1 if o.endswith("extend") else 0
+        if "libfs::Extent" not in (t.get("dest_ty", "") + " ".join(t.get("arg_tys", []))):
+            continue
+        c, atoms, ff = q.arg_origin_calls(f, t, ai, table={
+            "core::iter::traits::iterator::Iterator::map": [0], "core::slice::<impl [T]>::iter": [0],
+            "core::iter::traits::collect::IntoIterator::into_iter": [0], "core::ops::deref::Deref::deref": [0],
+            "core::ops::index::Index::index": [0]})
+        lossy = sorted(x for x in c if x.startswith("core::iter::traits::iterator::Iterator::") and x.rsplit("::", 1)[1] in LOSSY_ADAPTORS)
+        maps = False
+        for b2, t2 in q.calls_to(f, "core::iter::traits::iterator::Iterator::map"):
+            fv = list(t2["fn"].get("fnvals", [])) + [a_["c"]["fn"]["path"] for a_ in t2["args"] if "c" in a_ and "fn" in a_["c"]]
+            if any(builds_extent(x) for x in fv):
+                maps = True
+        bulk.append((bi, t, lossy, maps))
+    if not pushes and not bulk:
+        return [anchor_ob("R-ORDER", "map_extents appends libfs::Extent values (push in a loop, or extend/collect of a mapped iterator)")]
     loops = cfg.loops()
     for n, (bi, t) in enumerate(pushes):
         inner = None
@@ -797,7 +832,15 @@ def extents_forwarded(fx):
         h, body = inner
         latches = [u for (u, v) in cfg.back_edges() if v == h and u in body]
         ok = all(cfg.dominates(bi, u) for u in latches)
-        obs.append(Ob("R-ORDER", mkkey("R-ORDER", f.path, "Vec::push(Extent)", n, "every-iteration"), ok, q.loc_of(t), f.path,
+        obs.append(Ob("R-ORDER", mkkey("R-ORDER", MAP_, "append(Extent)", n, "every-iteration"), ok, q.loc_of(t), MAP_,
                       "every extent returned by FIEMAP is appended to the map (no iteration skips the push): %s" % ok,
                       None if ok else dict(push="bb%d" % bi, latches=latches)))
+    for n, (bi, t, lossy, maps) in enumerate(bulk):
+        ok = maps and not lossy
+        obs.append(Ob("R-ORDER", mkkey("R-ORDER", MAP_, "append(Extent)", n, "every-element"), ok, q.loc_of(t), MAP_,
+                      "every extent returned by FIEMAP is appended to the map (the iterator chain only maps): %s%s" % (
+                          ok, "" if not lossy else " -- lossy adaptors: %s" % [x.rsplit("::", 1)[1] for x in lossy]),
+                      None if ok else dict(lossy=lossy, maps_to_extent=maps)))
     return obs
+
+
